@@ -1626,6 +1626,13 @@ func (a *fnAnalysis) call(st *rstate, x *ssa.Call) {
 			if !ok {
 				v, ok = a.e.retOverride[cname]
 			}
+			if !ok && cname == "calendar.(*Solar).Subtract" && len(common.Args) == 2 {
+				// the day difference of two dates whose order is known from a dominating comparison
+				// of their fixed-width renderings (or IsBefore/IsAfter): its sign follows that order
+				if lo, hi, known := orderedDateDiff(a.fn, x.Block(), common.Args[0], common.Args[1]); known {
+					v, ok = rangeVal(lo, hi).withAx(axBit("AX-DATEDIFF")), true
+				}
+			}
 			if !ok {
 				v = a.e.retSum[callee].orBot()
 				// a small arithmetic helper is summarised per call site: floorMod(x, 10) and floorMod(x, 12)
@@ -2201,4 +2208,116 @@ func isSearchHelper(fn *ssa.Function) bool {
 		}
 	}
 	return counter && zero
+}
+
+
+// sameObject: do two SSA values name the same object (the same value, or loads of the same field of the same object)?
+func sameObject(a, b ssa.Value, depth int) bool {
+	if a == b {
+		return true
+	}
+	if depth > 4 {
+		return false
+	}
+	la, ok1 := a.(*ssa.UnOp)
+	lb, ok2 := b.(*ssa.UnOp)
+	if !ok1 || !ok2 || la.Op != token.MUL || lb.Op != token.MUL {
+		return false
+	}
+	fa, ok1 := la.X.(*ssa.FieldAddr)
+	fb, ok2 := lb.X.(*ssa.FieldAddr)
+	return ok1 && ok2 && fa.Field == fb.Field && sameObject(fa.X, fb.X, depth+1)
+}
+
+// orderedDateDiff: bounds of recv.Subtract(arg) at block b of fn when a dominating branch fact orders the two dates:
+// a comparison of recv.ToYmd()/ToYmdHms() with arg's, or recv.IsBefore/IsAfter(arg).
+func orderedDateDiff(fn *ssa.Function, b *ssa.BasicBlock, recv, arg ssa.Value) (lo, hi int64, known bool) {
+	rendered := func(v ssa.Value) (ssa.Value, string) {
+		call, ok := v.(*ssa.Call)
+		if !ok || call.Common().StaticCallee() == nil || !recvIsNamed(call.Common().StaticCallee(), "Solar") {
+			return nil, ""
+		}
+		switch call.Common().StaticCallee().Name() {
+		case "ToYmd", "ToYmdHms":
+			return call.Common().Args[0], call.Common().StaticCallee().Name()
+		}
+		return nil, ""
+	}
+	lo, hi = ninf, pinf
+	for _, f := range expandFacts(nil, domFacts(&evalFrame{fn: fn}, b), 3) {
+		rel := 0 // +2: recv > arg, +1: recv >= arg, -1: recv <= arg, -2: recv < arg
+		if x, y, op, ok := stringCompareAtom(f.cond); ok {
+			ox, kx := rendered(x)
+			oy, ky := rendered(y)
+			if ox == nil || oy == nil || kx != ky {
+				continue
+			}
+			if !f.truth {
+				op = negOp(op)
+			}
+			if sameObject(ox, arg, 0) && sameObject(oy, recv, 0) {
+				ox, oy, op = oy, ox, flipOp(op)
+			}
+			if !sameObject(ox, recv, 0) || !sameObject(oy, arg, 0) {
+				continue
+			}
+			switch op {
+			case token.GTR:
+				rel = 2
+			case token.GEQ:
+				rel = 1
+			case token.LEQ:
+				rel = -1
+			case token.LSS:
+				rel = -2
+			}
+			if ky == "ToYmdHms" && (rel == 2 || rel == -2) {
+				rel /= 2 // a later instant may fall on the same day
+			}
+		} else if call, ok := f.cond.(*ssa.Call); ok && call.Common().StaticCallee() != nil && recvIsNamed(call.Common().StaticCallee(), "Solar") && len(call.Common().Args) == 2 {
+			name := call.Common().StaticCallee().Name()
+			if name != "IsBefore" && name != "IsAfter" {
+				continue
+			}
+			x, y := call.Common().Args[0], call.Common().Args[1]
+			// IsBefore(x, y) true: x < y as instants, so date(x) <= date(y); false: x >= y, date(x) >= date(y)
+			r := 0
+			switch {
+			case name == "IsBefore" && f.truth, name == "IsAfter" && !f.truth:
+				r = -1
+			default:
+				r = 1
+			}
+			if sameObject(x, recv, 0) && sameObject(y, arg, 0) {
+				rel = r
+			} else if sameObject(x, arg, 0) && sameObject(y, recv, 0) {
+				rel = -r
+			}
+		}
+		switch rel {
+		case 2:
+			lo, known = max64(lo, 1), true
+		case 1:
+			lo, known = max64(lo, 0), true
+		case -1:
+			hi, known = min64(hi, 0), true
+		case -2:
+			hi, known = min64(hi, -1), true
+		}
+	}
+	return lo, hi, known
+}
+
+func max64(a, b int64) int64 {
+	if a > b {
+		return a
+	}
+	return b
+}
+
+func min64(a, b int64) int64 {
+	if a < b {
+		return a
+	}
+	return b
 }
